@@ -181,6 +181,22 @@ def run_group(acc, group, tier, only=None):
                         raise AssertionError("out= buffer not returned")
                     return o
                 c.chk("scalar_mult", "out-fresh:" + t, with_out, a * b)
+                # out= buffers that are strided views (a column of a larger work array, a transposed (n,2)
+                # array, the real view of a native complex tensor): the product must land in the caller's memory
+                work = torch.full((2,) + s + (3,), 9.0, dtype=torch.double)
+                pairs = torch.full(s + (2,), 9.0, dtype=torch.double)
+                native = torch.full(s, 9.0 + 9.0j, dtype=torch.complex128)
+                for nm, ov, back in (("column-of-work-array", work[..., 1], lambda: work[..., 1]),
+                                     ("transposed-pairs", pairs.movedim(-1, 0), lambda: pairs.movedim(-1, 0)),
+                                     ("view_as_real", torch.view_as_real(native).movedim(-1, 0), lambda: torch.view_as_real(native).movedim(-1, 0))):
+                    def strided(ov=ov, back=back):
+                        r = X.scalar_mult(ea, eb, out=ov)
+                        if r is not ov:
+                            raise AssertionError("out= buffer not returned")
+                        return back().clone()
+                    c.chk("scalar_mult", f"out-strided:{nm}:" + t, strided, a * b)
+                if not np.any(b == 0):
+                    c.chk("scalar_divide", "sdiv-same-shape-v:" + t, lambda: X.scalar_divide(ea, eb), a / b, exact=False)
                 A_ = enc(a)
                 c.must_raise("scalar_mult", "alias-first:" + t, lambda: X.scalar_mult(A_, eb, out=A_))
                 B_ = enc(b)
@@ -208,6 +224,17 @@ def run_group(acc, group, tier, only=None):
                 c.chk("elementwise_mult", "M.M:" + t, lambda: X.elementwise_mult(eA, eB0), A * B0)
                 if not np.any(B0 == 0):
                     c.chk("elementwise_division", "div-M:" + t, lambda: X.elementwise_division(eA, eB0), A / B0, exact=False)
+                    c.chk("scalar_divide", "sdiv-same-shape-M:" + t, lambda: X.scalar_divide(eA, eB0), A / B0, exact=False)
+                workM = torch.full((2,) + s + (2,), 9.0, dtype=torch.double)
+                pairsM = torch.full(tuple(reversed(s)) + (2,), 9.0, dtype=torch.double)
+
+                def strided_M(ov, back):
+                    r = X.scalar_mult(eA, eB0, out=ov)
+                    if r is not ov:
+                        raise AssertionError("out= buffer not returned")
+                    return back().clone()
+                c.chk("scalar_mult", "out-strided:column-of-work-array-M:" + t, lambda: strided_M(workM[..., 0], lambda: workM[..., 0]), A * B0)
+                c.chk("scalar_mult", "out-strided:transposed-M:" + t, lambda: strided_M(pairsM.permute(2, 1, 0), lambda: pairsM.permute(2, 1, 0)), A * B0)
                 for s2 in shapes2:
                     B = fill(s2, off + 1)
                     eB = enc(B)
